@@ -88,15 +88,30 @@ func (p *FunctionBuilder) CreateFunction(m *bmodel.MethodEntry) (*gmodel.Functio
 		srcDefName, dstDefName = dstDefName, srcDefName
 	}
 
-	srcVar := p.createVar(src, srcDefName)
-	dstVar := p.createVar(dst, dstDefName)
+	// A default name (for a parameter that has no name, or the blank one) must not run into
+	// a name that the method declares for another parameter.
+	declared := make(map[string]bool)
+	for _, v := range append([]*types.Var{src, dst}, additionalArgs...) {
+		if v.Name() != "" && v.Name() != "_" {
+			declared[v.Name()] = true
+		}
+	}
+	defName := func(name string) string {
+		for declared[name] {
+			name += "_"
+		}
+		return name
+	}
+
+	srcVar := p.createVar(src, defName(srcDefName))
+	dstVar := p.createVar(dst, defName(dstDefName))
 	if m.Opts.Style == gmodel.DstVarArg {
 		// In arg style the destination is always declared as a pointer parameter.
 		dstVar.Pointer = true
 	}
 	additionalArgsVars := make([]gmodel.Var, len(additionalArgs))
 	for i, arg := range additionalArgs {
-		additionalArgsVars[i] = p.createVar(arg, fmt.Sprintf("arg%d", i))
+		additionalArgsVars[i] = p.createVar(arg, defName(fmt.Sprintf("arg%d", i)))
 	}
 	if sig, ok := m.Method.Type().(*types.Signature); ok && sig.Variadic() && 0 < len(additionalArgsVars) {
 		additionalArgsVars[len(additionalArgsVars)-1].Variadic = true
